@@ -151,7 +151,58 @@ Section Machine.
     | _, _ => (None, log)
     end.
 
-  (* thread.rs do_call + call_function_with_upvars: the callee is below [args] arguments *)
+  (* thread.rs do_call + call_function_with_upvars, on a stack split as
+     [below ++ callee0 :: argsl]: the callee with its arguments on top of everything else. *)
+  Definition call_on (s : state) (below : list mval) (callee0 : mval) (argsl : list mval) : outcome :=
+    (* a partial application contributes its stored arguments in front of the new ones *)
+    let '(callee, allargs) :=
+      match resolve (st_store s) callee0 with
+      | MPap f0 stored => (f0, stored ++ argsl)
+      | _ => (callee0, argsl)
+      end in
+    let args := length allargs in
+    match resolve (st_store s) callee with
+    | MClo fn up =>
+        match get_fn fn with
+        | None => stuck s k_bad_instr
+        | Some f =>
+            let required := fn_args f in
+            match Nat.compare args required with
+            | Eq =>
+                Next {| st_stack := below ++ callee0 :: allargs;
+                        st_frames := {| fr_off := S (length below); fr_excess := false; fr_fn := fn; fr_upv := up; fr_pc := 0 |} :: st_frames s;
+                        st_store := st_store s; st_log := st_log s; st_pending := None |}
+            | Lt =>
+                Next {| st_stack := below ++ [MPap callee allargs];
+                        st_frames := st_frames s; st_store := st_store s; st_log := st_log s; st_pending := None |}
+            | Gt =>
+                (* the excess arguments are packed in a data value placed below the callee *)
+                Next {| st_stack := below ++ MData 0 [] (skipn required allargs) :: callee0 :: firstn required allargs;
+                        st_frames := {| fr_off := S (S (length below)); fr_excess := true; fr_fn := fn; fr_upv := up; fr_pc := 0 |} :: st_frames s;
+                        st_store := st_store s; st_log := st_log s; st_pending := None |}
+            end
+        end
+    | MExt e =>
+        let required := ext_arity e in
+        match Nat.compare args required with
+        | Lt =>
+            Next {| st_stack := below ++ [MPap callee allargs];
+                    st_frames := st_frames s; st_store := st_store s; st_log := st_log s; st_pending := None |}
+        | _ =>
+            let later := skipn required allargs in
+            match run_ext e (firstn required allargs) (st_log s) with
+            | (Some (inl r), log) =>
+                Next {| st_stack := below ++ r :: later;
+                        st_frames := st_frames s; st_store := st_store s; st_log := log;
+                        st_pending := match later with [] => None | _ => Some (length later) end |}
+            | (Some (inr e), log) => Done (VFail e) log
+            | (None, log) => Done (VStuck k_bad_extern) log
+            end
+        end
+    | _ => stuck s k_not_callable
+    end.
+
+  (* the callee is below [args] arguments on top of the stack *)
   Definition do_call (s : state) (args : nat) : outcome :=
     let st := st_stack s in
     let len := length st in
@@ -159,60 +210,7 @@ Section Machine.
     let fi := len - 1 - args in
     match nth_error st fi with
     | None => stuck s k_bad_stack
-    | Some callee0 =>
-        (* a partial application contributes its stored arguments in front of the new ones *)
-        let '(callee, st, args) :=
-          match resolve (st_store s) callee0 with
-          | MPap f0 stored => (f0, firstn (S fi) st ++ stored ++ skipn (S fi) st, length stored + args)
-          | _ => (callee0, st, args)
-          end in
-        let len := length st in
-        match resolve (st_store s) callee with
-        | MClo fn up =>
-            match get_fn fn with
-            | None => stuck s k_bad_instr
-            | Some f =>
-                let required := fn_args f in
-                match Nat.compare args required with
-                | Eq =>
-                    Next {| st_stack := st;
-                            st_frames := {| fr_off := len - args; fr_excess := false; fr_fn := fn; fr_upv := up; fr_pc := 0 |} :: st_frames s;
-                            st_store := st_store s; st_log := st_log s; st_pending := None |}
-                | Lt =>
-                    Next {| st_stack := dropn (S args) st ++ [MPap callee (lastn args st)];
-                            st_frames := st_frames s; st_store := st_store s; st_log := st_log s; st_pending := None |}
-                | Gt =>
-                    let excess := args - required in
-                    let d := MData 0 [] (lastn excess st) in
-                    let st1 := dropn excess st in
-                    let off := length st1 - required - 1 in
-                    let st2 := firstn off st1 ++ [d] ++ skipn off st1 in
-                    Next {| st_stack := st2;
-                            st_frames := {| fr_off := length st2 - required; fr_excess := true; fr_fn := fn; fr_upv := up; fr_pc := 0 |} :: st_frames s;
-                            st_store := st_store s; st_log := st_log s; st_pending := None |}
-                end
-            end
-        | MExt e =>
-            let required := ext_arity e in
-            match Nat.compare args required with
-            | Lt =>
-                Next {| st_stack := dropn (S args) st ++ [MPap callee (lastn args st)];
-                        st_frames := st_frames s; st_store := st_store s; st_log := st_log s; st_pending := None |}
-            | _ =>
-                let excess := args - required in
-                let now := firstn required (lastn args st) in
-                let later := lastn excess st in
-                match run_ext e now (st_log s) with
-                | (Some (inl r), log) =>
-                    Next {| st_stack := dropn (S args) st ++ [r] ++ later;
-                            st_frames := st_frames s; st_store := st_store s; st_log := log;
-                            st_pending := if Nat.eqb excess 0 then None else Some excess |}
-                | (Some (inr e), log) => Done (VFail e) log
-                | (None, log) => Done (VStuck k_bad_extern) log
-                end
-            end
-        | _ => stuck s k_not_callable
-        end
+    | Some callee0 => call_on s (firstn fi st) callee0 (skipn (S fi) st)
     end.
 
   Definition binop (s : state) (f : mval -> mval -> option (mval + verr)) : outcome :=
@@ -272,191 +270,216 @@ Section Machine.
                      st_frames := rest; st_store := st_store s; st_log := st_log s; st_pending := None |}
       end.
 
-  Definition exec (s : state) (f : frame) (rest : list frame) (fn : func) (i : instr) : outcome :=
-    let st := st_stack s in
-    let len := length st in
-    let off := fr_off f in
-    let s1 := set_pc s (S (fr_pc f)) in                         (* program_counter.step() *)
-    let push v := Next (with_stack s1 (st ++ [v])) in
+  (* The instructions that only touch the values of the current frame ([seg] = the stack from the
+     frame's offset upwards), its instruction index and the store: everything except Call,
+     TailCall and Return.  [None] for those three. *)
+  Inductive local := LNext (seg' : list mval) (pc' : nat) (store' : list cell) | LStuck (k : nat) | LFail (e : verr).
+
+  Definition lbinop (seg : list mval) (pc : nat) (store : list cell) (f : mval -> mval -> option (mval + verr)) : local :=
+    match lastn 2 seg with
+    | [l; r] =>
+        match f l r with
+        | Some (inl v) => LNext (dropn 2 seg ++ [v]) (S pc) store
+        | Some (inr e) => LFail e
+        | None => LStuck k_shape
+        end
+    | _ => LStuck k_bad_stack
+    end.
+
+  Definition exec_local (fn : func) (upv : list mval) (pc : nat) (store : list cell) (seg : list mval) (i : instr) : option local :=
+    let next seg' := Some (LNext seg' (S pc) store) in
+    let push v := Some (LNext (seg ++ [v]) (S pc) store) in
+    let stuckl k := Some (LStuck k) in
     match i with
-    | IPush n => match nth_error st (off + N.to_nat n) with Some v => push v | None => stuck s k_bad_stack end
+    | ICall _ | ITailCall _ | IReturn => None
+    | IPush n => match nth_error seg (N.to_nat n) with Some v => push v | None => stuckl k_bad_stack end
     | IPushInt z => push (MInt z)
     | IPushByte b => push (MByte (Z.of_N b))
     | IPushFloat b => push (MFloat (Z.of_N b))
-    | IPushString n => match nth_error (fn_strings fn) (N.to_nat n) with Some x => push (MStr x) | None => stuck s k_bad_instr end
-    | IPushUpVar n => match nth_error (fr_upv f) (N.to_nat n) with Some v => push v | None => stuck s k_bad_instr end
-    | ICall n => do_call s1 (N.to_nat n)
-    | ITailCall n =>
-        let args := N.to_nat n in
-        if Nat.ltb (len - off) (S args) then stuck s k_bad_stack else
-        if fr_excess f then
-          match nth_error st (off - 2) with
-          | Some ex =>
-              match resolve (st_store s) ex with
-              | MData _ _ fields =>
-                  do_call {| st_stack := firstn (off - 2) st ++ lastn (S args) st ++ fields;
-                             st_frames := rest; st_store := st_store s; st_log := st_log s; st_pending := None |}
-                          (args + length fields)
-              | _ => stuck s k_shape
-              end
-          | None => stuck s k_bad_stack
-          end
-        else
-          do_call {| st_stack := firstn (off - 1) st ++ lastn (S args) st;
-                     st_frames := rest; st_store := st_store s; st_log := st_log s; st_pending := None |} args
+    | IPushString n => match nth_error (fn_strings fn) (N.to_nat n) with Some x => push (MStr x) | None => stuckl k_bad_instr end
+    | IPushUpVar n => match nth_error upv (N.to_nat n) with Some v => push v | None => stuckl k_bad_instr end
     | IConstructVariant tag args =>
         let k := N.to_nat args in
-        if Nat.ltb (len - off) k then stuck s k_bad_stack else
-        Next (with_stack s1 (dropn k st ++ [if Nat.eqb k 0 then MTag tag else MData tag [] (lastn k st)]))
+        if Nat.ltb (length seg) k then stuckl k_bad_stack else
+        next (dropn k seg ++ [if Nat.eqb k 0 then MTag tag else MData tag [] (lastn k seg)])
     | IConstructRecord record args =>
         let k := N.to_nat args in
-        if Nat.ltb (len - off) k then stuck s k_bad_stack else
+        if Nat.ltb (length seg) k then stuckl k_bad_stack else
         if Nat.eqb k 0 then push (MTag 0) else
         match nth_error (fn_records fn) (N.to_nat record) with
-        | Some names => Next (with_stack s1 (dropn k st ++ [MData 0 names (lastn k st)]))
-        | None => stuck s k_bad_instr
+        | Some names => next (dropn k seg ++ [MData 0 names (lastn k seg)])
+        | None => stuckl k_bad_instr
         end
     | IConstructArray args =>
         let k := N.to_nat args in
-        if Nat.ltb (len - off) k then stuck s k_bad_stack else
-        Next (with_stack s1 (dropn k st ++ [MArr (lastn k st)]))
-    | IConstructPolyVariant _ _ => stuck s k_unsupported
+        if Nat.ltb (length seg) k then stuckl k_bad_stack else
+        next (dropn k seg ++ [MArr (lastn k seg)])
+    | IConstructPolyVariant _ _ => stuckl k_unsupported
     | INewVariant tag args =>
         let k := N.to_nat args in
         if Nat.eqb k 0 then push (MTag tag) else
-        Next {| st_stack := st ++ [MRef (length (st_store s))]; st_frames := st_frames s1;
-                st_store := st_store s ++ [CData tag [] (repeat MUnknown k)]; st_log := st_log s; st_pending := None |}
+        Some (LNext (seg ++ [MRef (length store)]) (S pc) (store ++ [CData tag [] (repeat MUnknown k)]))
     | INewRecord record args =>
         let k := N.to_nat args in
         if Nat.eqb k 0 then push (MTag 0) else
         match nth_error (fn_records fn) (N.to_nat record) with
-        | Some names =>
-            Next {| st_stack := st ++ [MRef (length (st_store s))]; st_frames := st_frames s1;
-                    st_store := st_store s ++ [CData 0 names (repeat MUnknown k)]; st_log := st_log s; st_pending := None |}
-        | None => stuck s k_bad_instr
+        | Some names => Some (LNext (seg ++ [MRef (length store)]) (S pc) (store ++ [CData 0 names (repeat MUnknown k)]))
+        | None => stuckl k_bad_instr
         end
     | ICloseData index =>
-        match nth_error st (off + N.to_nat index) with
+        match nth_error seg (N.to_nat index) with
         | Some (MRef a) =>
-            match nth_error (st_store s) a with
+            match nth_error store a with
             | Some (CData tag names old) =>
                 let k := length old in
-                if Nat.ltb (len - off) k then stuck s k_bad_stack else
-                Next {| st_stack := dropn k st; st_frames := st_frames s1;
-                        st_store := set_nth a (CData tag names (lastn k st)) (st_store s);
-                        st_log := st_log s; st_pending := None |}
-            | _ => stuck s k_shape
+                if Nat.ltb (length seg) k then stuckl k_bad_stack else
+                Some (LNext (dropn k seg) (S pc) (set_nth a (CData tag names (lastn k seg)) store))
+            | _ => stuckl k_shape
             end
-        | Some (MTag _) => Next s1          (* a record without fields was never allocated *)
-        | _ => stuck s k_shape
+        | Some (MTag _) => next seg          (* a record without fields was never allocated *)
+        | _ => stuckl k_shape
         end
     | IGetOffset n =>
-        match lastn 1 st with
-        | [v] => match resolve (st_store s) v with
+        match lastn 1 seg with
+        | [v] => match resolve store v with
                  | MData _ _ fields =>
                      match nth_error fields (N.to_nat n) with
-                     | Some x => Next (with_stack s1 (dropn 1 st ++ [x]))
-                     | None => stuck s k_shape
+                     | Some x => next (dropn 1 seg ++ [x])
+                     | None => stuckl k_shape
                      end
-                 | _ => stuck s k_shape
+                 | _ => stuckl k_shape
                  end
-        | _ => stuck s k_bad_stack
+        | _ => stuckl k_bad_stack
         end
     | IGetField n =>
-        match lastn 1 st, nth_error (fn_strings fn) (N.to_nat n) with
+        match lastn 1 seg, nth_error (fn_strings fn) (N.to_nat n) with
         | [v], Some name =>
-            match resolve (st_store s) v with
+            match resolve store v with
             | MData _ names fields =>
                 match field_index name names with
                 | Some k => match nth_error fields k with
-                            | Some x => Next (with_stack s1 (dropn 1 st ++ [x]))
-                            | None => stuck s k_shape
+                            | Some x => next (dropn 1 seg ++ [x])
+                            | None => stuckl k_shape
                             end
-                | None => stuck s k_shape
+                | None => stuckl k_shape
                 end
-            | _ => stuck s k_shape
+            | _ => stuckl k_shape
             end
-        | _, _ => stuck s k_bad_stack
+        | _, _ => stuckl k_bad_stack
         end
     | ISplit =>
-        match lastn 1 st with
-        | [v] => match resolve (st_store s) v with
-                 | MData _ _ fields => Next (with_stack s1 (dropn 1 st ++ fields))
-                 | MTag _ => Next (with_stack s1 (dropn 1 st))
-                 | _ => stuck s k_shape
+        match lastn 1 seg with
+        | [v] => match resolve store v with
+                 | MData _ _ fields => next (dropn 1 seg ++ fields)
+                 | MTag _ => next (dropn 1 seg)
+                 | _ => stuckl k_shape
                  end
-        | _ => stuck s k_bad_stack
+        | _ => stuckl k_bad_stack
         end
     | ITestTag tag =>
-        match lastn 1 st with
-        | [v] => match resolve (st_store s) v with
+        match lastn 1 seg with
+        | [v] => match resolve store v with
                  | MData t _ _ => push (mbool (N.eqb t tag))
                  | MTag t => push (mbool (N.eqb t tag))
-                 | _ => stuck s k_shape
+                 | _ => stuckl k_shape
                  end
-        | _ => stuck s k_bad_stack
+        | _ => stuckl k_bad_stack
         end
-    | ITestPolyTag _ => stuck s k_unsupported
-    | IJump n => Next (set_pc s (N.to_nat n))
+    | ITestPolyTag _ => stuckl k_unsupported
+    | IJump n => Some (LNext seg (N.to_nat n) store)
     | ICJump n =>
-        match lastn 1 st with
-        | [MTag 0%N] => Next (with_stack s1 (dropn 1 st))
-        | [_] => Next (with_stack (set_pc s (N.to_nat n)) (dropn 1 st))
-        | _ => stuck s k_bad_stack
+        match lastn 1 seg with
+        | [MTag 0%N] => next (dropn 1 seg)
+        | [_] => Some (LNext (dropn 1 seg) (N.to_nat n) store)
+        | _ => stuckl k_bad_stack
         end
     | IPop n =>
         let k := N.to_nat n in
-        if Nat.ltb (len - off) k then stuck s k_bad_stack else Next (with_stack s1 (dropn k st))
+        if Nat.ltb (length seg) k then stuckl k_bad_stack else next (dropn k seg)
     | ISlide n =>
         let k := N.to_nat n in
-        if Nat.ltb (len - off) (S k) then stuck s k_bad_stack else
-        Next (with_stack s1 (dropn (S k) st ++ lastn 1 st))
+        if Nat.ltb (length seg) (S k) then stuckl k_bad_stack else
+        next (dropn (S k) seg ++ lastn 1 seg)
     | IMakeClosure fi upvars =>
         let k := N.to_nat upvars in
-        if Nat.ltb (len - off) k then stuck s k_bad_stack else
+        if Nat.ltb (length seg) k then stuckl k_bad_stack else
         match nth_error (fn_inner fn) (N.to_nat fi) with
-        | Some g => Next (with_stack s1 (dropn k st ++ [MClo g (lastn k st)]))
-        | None => stuck s k_bad_instr
+        | Some g => next (dropn k seg ++ [MClo g (lastn k seg)])
+        | None => stuckl k_bad_instr
         end
     | INewClosure fi upvars =>
         match nth_error (fn_inner fn) (N.to_nat fi) with
-        | Some g =>
-            Next {| st_stack := st ++ [MRef (length (st_store s))]; st_frames := st_frames s1;
-                    st_store := st_store s ++ [CClo g (repeat MUnknown (N.to_nat upvars))];
-                    st_log := st_log s; st_pending := None |}
-        | None => stuck s k_bad_instr
+        | Some g => Some (LNext (seg ++ [MRef (length store)]) (S pc) (store ++ [CClo g (repeat MUnknown (N.to_nat upvars))]))
+        | None => stuckl k_bad_instr
         end
     | ICloseClosure n =>
-        match nth_error st (len - N.to_nat n - 1) with
+        if Nat.ltb (length seg) (S (N.to_nat n)) then stuckl k_bad_stack else
+        match nth_error seg (length seg - N.to_nat n - 1) with
         | Some (MRef a) =>
-            match nth_error (st_store s) a with
+            match nth_error store a with
             | Some (CClo g old) =>
                 let k := length old in
-                if Nat.ltb (len - off) (S k) then stuck s k_bad_stack else
-                Next {| st_stack := dropn (S k) st; st_frames := st_frames s1;
-                        st_store := set_nth a (CClo g (lastn k st)) (st_store s);
-                        st_log := st_log s; st_pending := None |}
-            | _ => stuck s k_shape
+                if Nat.ltb (length seg) (S k) then stuckl k_bad_stack else
+                Some (LNext (dropn (S k) seg) (S pc) (set_nth a (CClo g (lastn k seg)) store))
+            | _ => stuckl k_shape
             end
-        | _ => stuck s k_shape
+        | _ => stuckl k_shape
         end
-    | IAddInt => binop s1 (int_op (fun x y => Some (x + y)%Z))
-    | ISubtractInt => binop s1 (int_op (fun x y => Some (x - y)%Z))
-    | IMultiplyInt => binop s1 (int_op (fun x y => Some (x * y)%Z))
-    | IDivideInt => binop s1 (int_op zdiv)
-    | IIntLT => binop s1 (int_cmp Z.ltb)
-    | IIntEQ => binop s1 (int_cmp Z.eqb)
-    | IAddByte => binop s1 (byte_op (fun x y => Some (x + y)%Z))
-    | ISubtractByte => binop s1 (byte_op (fun x y => Some (x - y)%Z))
-    | IMultiplyByte => binop s1 (byte_op (fun x y => Some (x * y)%Z))
-    | IDivideByte => binop s1 (byte_op zdiv)
-    | IByteLT => binop s1 (byte_cmp Z.ltb)
-    | IByteEQ => binop s1 (byte_cmp Z.eqb)
-    | IAddFloat | ISubtractFloat | IMultiplyFloat | IDivideFloat | IFloatLT | IFloatEQ => stuck s k_unsupported
-    | IReturn =>
-        match lastn 1 st with
-        | [result] => do_return s f rest result
-        | _ => stuck s k_bad_stack
+    | IAddInt => Some (lbinop seg pc store (int_op (fun x y => Some (x + y)%Z)))
+    | ISubtractInt => Some (lbinop seg pc store (int_op (fun x y => Some (x - y)%Z)))
+    | IMultiplyInt => Some (lbinop seg pc store (int_op (fun x y => Some (x * y)%Z)))
+    | IDivideInt => Some (lbinop seg pc store (int_op zdiv))
+    | IIntLT => Some (lbinop seg pc store (int_cmp Z.ltb))
+    | IIntEQ => Some (lbinop seg pc store (int_cmp Z.eqb))
+    | IAddByte => Some (lbinop seg pc store (byte_op (fun x y => Some (x + y)%Z)))
+    | ISubtractByte => Some (lbinop seg pc store (byte_op (fun x y => Some (x - y)%Z)))
+    | IMultiplyByte => Some (lbinop seg pc store (byte_op (fun x y => Some (x * y)%Z)))
+    | IDivideByte => Some (lbinop seg pc store (byte_op zdiv))
+    | IByteLT => Some (lbinop seg pc store (byte_cmp Z.ltb))
+    | IByteEQ => Some (lbinop seg pc store (byte_cmp Z.eqb))
+    | IAddFloat | ISubtractFloat | IMultiplyFloat | IDivideFloat | IFloatLT | IFloatEQ => stuckl k_unsupported
+    end.
+
+  Definition exec (s : state) (f : frame) (rest : list frame) (fn : func) (i : instr) : outcome :=
+    let st := st_stack s in
+    let off := fr_off f in
+    let seg := skipn off st in
+    match exec_local fn (fr_upv f) (fr_pc f) (st_store s) seg i with
+    | Some (LNext seg' pc' store') =>
+        Next {| st_stack := firstn off st ++ seg';
+                st_frames := {| fr_off := off; fr_excess := fr_excess f; fr_fn := fr_fn f; fr_upv := fr_upv f; fr_pc := pc' |} :: rest;
+                st_store := store'; st_log := st_log s; st_pending := None |}
+    | Some (LStuck k) => stuck s k
+    | Some (LFail e) => fail s e
+    | None =>
+        match i with
+        | ICall n =>
+            if Nat.ltb (length seg) (S (N.to_nat n)) then stuck s k_bad_stack
+            else do_call (set_pc s (S (fr_pc f))) (N.to_nat n)
+        | ITailCall n =>
+            let args := N.to_nat n in
+            if Nat.ltb (length seg) (S args) then stuck s k_bad_stack else
+            if fr_excess f then
+              match nth_error st (off - 2) with
+              | Some ex =>
+                  match resolve (st_store s) ex with
+                  | MData _ _ fields =>
+                      do_call {| st_stack := firstn (off - 2) st ++ lastn (S args) seg ++ fields;
+                                 st_frames := rest; st_store := st_store s; st_log := st_log s; st_pending := None |}
+                              (args + length fields)
+                  | _ => stuck s k_shape
+                  end
+              | None => stuck s k_bad_stack
+              end
+            else
+              do_call {| st_stack := firstn (off - 1) st ++ lastn (S args) seg;
+                         st_frames := rest; st_store := st_store s; st_log := st_log s; st_pending := None |} args
+        | IReturn =>
+            match lastn 1 seg with
+            | [result] => do_return s f rest result
+            | _ => stuck s k_bad_stack
+            end
+        | _ => stuck s k_bad_instr
         end
     end.
 
